@@ -3,10 +3,14 @@
 * The parent imports everything once, then forks N workers (never a fork per case).
 * Work items ("payloads", dicts) are handed out one at a time over pipes; results come back pickled.
 * Inside a worker, `ctx.begin(idx)` marks the case being executed (shared memory) and arms a *soft*
-  watchdog (SIGALRM -> CaseTimeout raised inside the case: the handler records outcome "hang").
+  watchdog (CaseTimeout raised inside the case: the handler records outcome "hang").
 * If a case does not even react to the soft alarm (a loop in C code, a blocked syscall) the parent kills
   the worker after `hard_timeout`, records the case as hang (or "crash" if the worker died by itself),
   respawns a worker and re-queues the payload with that case index added to payload["skip"].
+* Both watchdogs count the CPU time of the worker (ITIMER_PROF; utime+stime from /proc in the parent), not wall-clock
+  time: what the code under test does is the same on a busy machine, how long it waits for a core is not - with
+  48 busy processes on the 16 cores a 5 s case took 18 s of wall-clock time and an explorer step ran into a 30 s wall
+  watchdog.  A case that blocks without using the CPU is caught by a wall-clock backstop of WALL_FACTOR x the limit.
 * RLIMIT_AS makes runaway allocations a MemoryError inside the case rather than a dead harness.
 """
 import os
@@ -21,6 +25,8 @@ import traceback
 import multiprocessing.sharedctypes as sct
 
 NWORKERS = int(os.environ.get("VERIF_WORKERS", "16"))
+WALL_FACTOR = 6.0
+_CLK_TCK = os.sysconf("SC_CLK_TCK")
 
 
 class CaseTimeout(BaseException):
@@ -34,17 +40,47 @@ class WorkerCtx:
         self.soft_timeout = soft_timeout
 
     def begin(self, idx, soft=None):
-        self.shared[2 * self.slot] = idx
-        self.shared[2 * self.slot + 1] = int(time.time() * 1000)
-        signal.setitimer(signal.ITIMER_REAL, soft or self.soft_timeout)
+        # (the parent reads the index first: it must be the last thing written)
+        t = os.times()
+        self.shared[3 * self.slot + 2] = int((t.user + t.system) * 1000)
+        self.shared[3 * self.slot + 1] = int(time.time() * 1000)
+        self.shared[3 * self.slot] = idx
+        arm(soft or self.soft_timeout)
 
     def end(self):
-        signal.setitimer(signal.ITIMER_REAL, 0)
-        self.shared[2 * self.slot] = -1
+        disarm()
+        self.shared[3 * self.slot] = -1
 
 
 def _alarm(signum, frame):
+    disarm()  # (the other timer must not fire while the case is being unwound)
     raise CaseTimeout()
+
+
+def install_watchdog():
+    signal.signal(signal.SIGPROF, _alarm)
+    signal.signal(signal.SIGALRM, _alarm)
+
+
+def arm(soft):
+    """soft seconds of CPU time of this process, or WALL_FACTOR x soft seconds of wall-clock time, whichever comes first"""
+    signal.setitimer(signal.ITIMER_PROF, soft)
+    signal.setitimer(signal.ITIMER_REAL, soft * WALL_FACTOR)
+
+
+def disarm():
+    signal.setitimer(signal.ITIMER_PROF, 0)
+    signal.setitimer(signal.ITIMER_REAL, 0)
+
+
+def _cpu_ms(pid):
+    """utime + stime of a process in ms (None when it is gone)"""
+    try:
+        with open("/proc/%d/stat" % pid) as f:
+            rest = f.read().rsplit(")", 1)[1].split()
+        return (int(rest[11]) + int(rest[12])) * 1000 // _CLK_TCK
+    except (OSError, ValueError, IndexError):
+        return None
 
 
 def _send(fd, obj):
@@ -84,9 +120,9 @@ class WorkerPool:
         self.hard = hard_timeout
         self.mem = int(mem_gb * (1 << 30))
         self.init = init
-        self.shared = sct.RawArray("q", 2 * self.n)
+        self.shared = sct.RawArray("q", 3 * self.n)  # per worker: case index (-1: none), wall ms and CPU ms at its start
         for i in range(self.n):
-            self.shared[2 * i] = -1
+            self.shared[3 * i] = -1
         self.workers = {}
         self.events = []  # (payload_index, case_idx, kind)
         self.started = False
@@ -100,7 +136,7 @@ class WorkerPool:
                 os._exit(0)
         except Exception:
             pass
-        signal.signal(signal.SIGALRM, _alarm)
+        install_watchdog()
         signal.signal(signal.SIGINT, signal.SIG_IGN)
         if self.mem:
             try:
@@ -153,7 +189,7 @@ class WorkerPool:
         os.close(c2p_w)
         w = Worker()
         w.pid, w.slot, w.to_w, w.from_w, w.task, w.t0 = pid, slot, p2c_w, c2p_r, None, 0
-        self.shared[2 * slot] = -1
+        self.shared[3 * slot] = -1
         self.workers[slot] = w
         return w
 
@@ -241,11 +277,19 @@ class WorkerPool:
                     if on_result:
                         on_result(i, res)
             now_ms = int(time.time() * 1000)
+            if now_ms - getattr(self, "_last_hard_check", 0) < 1000:
+                continue
+            self._last_hard_check = now_ms
             for w in list(self.workers.values()):
                 if w.task is None:
                     continue
-                cidx, ts = self.shared[2 * w.slot], self.shared[2 * w.slot + 1]
-                if cidx >= 0 and now_ms - ts > self.hard * 1000:
+                cidx, ts, cpu0 = self.shared[3 * w.slot], self.shared[3 * w.slot + 1], self.shared[3 * w.slot + 2]
+                if cidx < 0:
+                    continue
+                cpu = _cpu_ms(w.pid)
+                if (cpu is not None and cpu - cpu0 > self.hard * 1000) or now_ms - ts > self.hard * 1000 * WALL_FACTOR:
+                    if self.shared[3 * w.slot] != cidx:
+                        continue  # (it moved on while we were looking)
                     self._worker_lost(w, payloads, results, queue, "hang")
                     pending -= 1
                     idle.append(self._spawn(w.slot))
@@ -253,7 +297,7 @@ class WorkerPool:
 
     def _worker_lost(self, w, payloads, results, queue, kind):
         i = w.task
-        cidx = self.shared[2 * w.slot]
+        cidx = self.shared[3 * w.slot]
         self._reap(w, kill=True)
         if cidx >= 0:
             self.events.append((i, int(cidx), kind))
